@@ -160,11 +160,17 @@ func (d *Dumper) ValueLit(in any, optFns ...ValueLitOptFn) string {
 
 	switch tpe.Kind() {
 	case reflect.Ptr:
-		kind := rv.Elem().Kind()
-		if _, ok := basicKinds[kind]; ok {
-			return fmt.Sprintf("func(v %s) *%s { return &v }(%s)", kind, kind, d.ValueLit(rv.Elem(), optFns...))
+		elem := rv.Elem()
+
+		switch elem.Kind() {
+		case reflect.Struct, reflect.Map, reflect.Slice, reflect.Array:
+			// composite literals are addressable; never elide the literal itself, even when all fields are zero
+			return fmt.Sprintf("&(%s)", d.ValueLit(elem, append(optFns, SubValue(false))...))
 		}
-		return fmt.Sprintf("&(%s)", d.ValueLit(rv.Elem(), optFns...))
+
+		// scalars (named ones included) are not addressable as literals: go through a typed parameter
+		elemType := d.ReflectTypeLit(elem.Type())
+		return fmt.Sprintf("func(v %s) *%s { return &v }(%s)", elemType, elemType, d.ValueLit(elem, optFns...))
 	case reflect.Struct:
 		buf := bytes.NewBufferString(d.ReflectTypeLit(tpe))
 		buf.WriteString(`{`)
